@@ -12,8 +12,10 @@ import Panacea.Properties.C01
 * listings: whatever the pagination request, every item returned belongs to exactly the requested
   owner / topic (component-exact, never a name that merely shares a prefix); following `next_key` forward
   with any page size returns the whole listing, in order, each item once; `count_total` is its length.
-  The reverse and offset-based walks are covered by the correspondence stream (full walks with limits
-  1, 2, 100 in both directions after every history), not by a theorem here — stated as partial.
+  The same for the reverse walk (`listing_reverse_walk_complete`: descending, each item once, and the walk never
+  sends the one key on which the SDK's reverse iterator panics, F14) and for offset-style pages
+  (`listing_offset_page`: a page is exactly that slice, in either direction, `next_key` the entry after it;
+  `listing_offset_walk_complete`: consecutive offsets return the whole listing).
 -/
 namespace Panacea.C13
 open Panacea CompKey Aol Map
@@ -128,6 +130,65 @@ theorem topics_listing_only_owner (c : AddrCodec) (s : State) (oa : Bytes) (req 
       | err e => simp [hpg] at h
       | panic e => simp [hpg] at h
 
+
+/-- **No cross-talk (writers).**  Whatever the pagination request, every address the `Writers` query returns
+for `(owner, topic)` is a writer stored under exactly that owner and exactly that topic (never a topic whose
+name merely starts with the requested one, never another owner's). -/
+theorem writers_listing_only_topic (c : AddrCodec) (s : State) (oa t : Bytes) (req : Paginate.PageRequest)
+    (ws : List Bytes) (page : Paginate.PageResponse)
+    (h : queryWriters c s oa t req = .ok (ws, page)) :
+    ∃ o, c.dec oa = some o ∧ ∀ w ∈ ws, ∃ wk, encode [o, t, w] = some wk ∧ s.writers.has wk = true := by
+  simp only [queryWriters, bind, Outcome.bind, decAddr] at h
+  cases ho : c.dec oa with
+  | none => simp [ho] at h
+  | some o =>
+    refine ⟨o, rfl, ?_⟩
+    simp only [ho] at h
+    cases hp : partialEncode [o, t, []] 2 with
+    | none => simp [hp] at h
+    | some pfx =>
+      simp only [hp] at h
+      have hpfx : encode [o, t] = some pfx := by simpa [partialEncode] using hp
+      cases hpg : Paginate.paginate (s.writers.prefixView pfx) req with
+      | ok r =>
+        obtain ⟨items, pg⟩ := r
+        simp only [hpg] at h
+        cases hdl : decodeListed .writer pfx 2 items with
+        | ok ns =>
+          simp only [hdl, pure, Outcome.ok.injEq, Prod.mk.injEq] at h
+          obtain ⟨rfl, _⟩ := h
+          intro n hn
+          obtain ⟨e, he, comps, hdec, hidx⟩ := decodeListed_mem .writer pfx 2 items ns hdl n hn
+          have hmem := Paginate.paginate_subset hpg e he
+          have hkey : (pfx ++ e.1, e.2) ∈ s.writers := mem_prefixView.mp hmem
+          have hcanon := C18.decodeTyped_canonical .writer (pfx ++ e.1) comps hdec
+          unfold decodeTyped at hdec
+          cases hd : decode (pfx ++ e.1) with
+          | none => simp [hd] at hdec
+          | some vs =>
+            simp only [hd] at hdec
+            match vs, hdec with
+            | [o', t', w'], hdec =>
+              simp only [fromByteSlices] at hdec
+              have hc : comps = [o', t', w'] := by
+                split at hdec
+                · simp at hdec
+                · split at hdec
+                  · simp at hdec
+                  · simp at hdec; exact hdec.symm
+              subst hc
+              simp at hidx; subst hidx
+              have hpre : [o, t] <+: [o', t', w'] :=
+                prefix_of_encode_prefix _ _ _ _ hpfx hcanon (List.prefix_append _ _)
+              have h2 : o = o' ∧ t = t' := by
+                have := List.prefix_iff_eq_take.mp hpre; simp at this; exact this
+              obtain ⟨rfl, rfl⟩ := h2
+              exact ⟨pfx ++ e.1, hcanon, (get_isSome_iff_mem_keys _ _).mpr (List.mem_map.mpr ⟨_, hkey, rfl⟩)⟩
+        | err e => simp [hdl] at h
+        | panic e => simp [hdl] at h
+      | err e => simp [hpg] at h
+      | panic e => simp [hpg] at h
+
 /-- **Forward walk completeness** for any listing view: following `next_key` from the start with any
 page size returns the whole view, in order, each entry once (`Paginate.walkFwd_complete`), and
 `count_total` is its length (`Paginate.paginate_total`). -/
@@ -135,6 +196,29 @@ theorem listing_walk_complete {V} (items : List (Bytes × V)) (hs : Paginate.Sor
     (hne : ∀ e ∈ items, e.1 ≠ []) (limit : Nat) (hl : 0 < limit) (hlim : limit + 1 < 2 ^ 64) :
     Paginate.walkFwd items limit (items.length + 1) [] = some items :=
   Paginate.walkFwd_complete items hs hne limit hl (by simpa using hlim)
+
+
+/-- **Reverse walk completeness**: following `next_key` with `reverse = true` from the start returns the whole
+listing in descending order, each item once, for any page size. -/
+theorem listing_reverse_walk_complete {V : Type} (items : List (Bytes × V)) (hs : Paginate.SortedItems items)
+    (hne : ∀ e ∈ items, e.1 ≠ []) (limit : Nat) (hl : 0 < limit) (hlim : limit + 1 < 2 ^ 64) :
+    Paginate.walkRev items limit (items.length + 1) [] = some items.reverse :=
+  Paginate.walkRev_complete items hs hne limit hl (by simpa using hlim)
+
+/-- **Offset-style page**: exactly the requested slice of the listing in the requested direction, `next_key` the
+key of the entry after it, `total` the listing's length when asked for. -/
+theorem listing_offset_page {V : Type} (items : List (Bytes × V)) (o l : Nat) (ct rev : Bool) (hl : 0 < l)
+    (hlim : o + l + 1 < 2 ^ 64) :
+    Paginate.paginate items { offset := o, limit := l, countTotal := ct, reverse := rev } =
+      .ok (((Paginate.ordered items rev).drop o).take l,
+        { nextKey := Paginate.keyAt (Paginate.ordered items rev) (o + l), total := if ct then items.length else 0 }) :=
+  Paginate.offset_page_eq items o l ct rev hl (by simpa using hlim)
+
+/-- **Offset walk completeness**: the pages at offsets `0, l, 2l, …, (k-1)·l` with `k·l ≥ n` are together the
+whole listing, in order, each item once. -/
+theorem listing_offset_walk_complete {V : Type} (L : List (Bytes × V)) (l k : Nat) (hk : L.length ≤ k * l) :
+    ((List.range k).map fun j => (L.drop (j * l)).take l).flatten = L :=
+  Paginate.offset_walk_complete L l k hk
 
 theorem listing_count_total {V} (items res : List (Bytes × V)) (req : Paginate.PageRequest) (page : Paginate.PageResponse)
     (hk : req.key = []) (hc : req.countTotal = true ∨ req.limit = 0)
